@@ -1,7 +1,8 @@
 (* C08 - file-event handling: check/check_lsp_filechange.go (HandleFileEventChanges), check_first_hanlde.go
    (unchanged-content shortcut), check_all.go (RemoveFile), check_util.go (GetAllFileErrorInfo),
    check_third_file.go (which files the third pass covers), common/file_index_info.go (index, wrong-key removal),
-   results/file_result.go (ReanalyseReferInfo trigger), textdocument_file_request.go (the five handlers).
+   results/file_result.go (ReanalyseReferInfo trigger), textdocument_file_request.go (the five handlers; analyseBufferText =
+   the live analysis shared by didChange and the repaired didOpen).
    Executable model, no proofs here.
 
    The per-file analyses are abstract (fields of the record `analysis`):
@@ -24,26 +25,32 @@ Inductive kind := KCreated | KChanged | KDeleted.        (* FileEventCreated = 1
 
 Inductive item := Own (e : err) | Req (t : file) (e : err).
 
-(* repairs (DESIGN 6 rows 12a, 12b, 12, the empty-file shortcut found in round 1, and the round-2 repairs of the classes
-   unhidden and watched_dirty); all false = the code before any fix: commit *)
+(* repairs (DESIGN 6 rows 12a, 12b, 12, the empty-file shortcut found in round 1, the round-2 repairs of the classes
+   unhidden, watched_dirty and outside_file, and the repair of C02's finding open_text_not_disk: the text carried by
+   didOpen is analysed); all false = the code before any fix: commit *)
 Record fixes := { fix12a : bool; fix12b : bool; fix_index : bool; fix_empty : bool;
                   fix_unhidden : bool;     (* fixes/C08-unhidden.diff: fileChangeCleanMap, re-hidden by pushAllDiagnosticsAgain *)
                   fix_watched : bool;      (* fixes/C08-watched-dirty.diff: a watched-file event keeps the live entries *)
-                  fix_outside : bool }.    (* fixes/C08-outside-file.diff: a file outside the workspace joins / leaves the
+                  fix_outside : bool;      (* fixes/C08-outside-file.diff: a file outside the workspace joins / leaves the
                                               project like any other file (full re-analysis on didOpen and didClose) *)
+                  fix_didopen : bool }.    (* fixes/C02-didopen-analysed.diff: didOpen compares the text it carries with the
+                                              file and, when they differ, runs the live analysis of a didChange on it *)
 Definition no_fix : fixes := {| fix12a := false; fix12b := false; fix_index := false; fix_empty := false;
-                                fix_unhidden := false; fix_watched := false; fix_outside := false |}.
+                                fix_unhidden := false; fix_watched := false; fix_outside := false; fix_didopen := false |}.
 Definition all_fix : fixes := {| fix12a := true; fix12b := true; fix_index := true; fix_empty := true;
-                                 fix_unhidden := true; fix_watched := true; fix_outside := true |}.
+                                 fix_unhidden := true; fix_watched := true; fix_outside := true; fix_didopen := true |}.
 (* the code of round 1: fix: commits 0734f52 12a, af1552a 12b, 85b8991 empty shortcut, ec76861 index *)
 Definition round1 : fixes := {| fix12a := true; fix12b := true; fix_index := true; fix_empty := true;
-                                fix_unhidden := false; fix_watched := false; fix_outside := false |}.
+                                fix_unhidden := false; fix_watched := false; fix_outside := false; fix_didopen := false |}.
 (* round 1 + fixes/C08-unhidden.diff + fixes/C08-watched-dirty.diff *)
 Definition round2 : fixes := {| fix12a := true; fix12b := true; fix_index := true; fix_empty := true;
-                                fix_unhidden := true; fix_watched := true; fix_outside := false |}.
-(* the repairs that are in /repo now: all seven *)
+                                fix_unhidden := true; fix_watched := true; fix_outside := false; fix_didopen := false |}.
+(* round 2 + fixes/C08-outside-file.diff: the seven repairs of C08's own findings, didOpen still not analysed *)
+Definition round3 : fixes := {| fix12a := true; fix12b := true; fix_index := true; fix_empty := true;
+                                fix_unhidden := true; fix_watched := true; fix_outside := true; fix_didopen := false |}.
+(* the repairs that are in /repo now: all eight *)
 Definition deployed : fixes := {| fix12a := true; fix12b := true; fix_index := true; fix_empty := true;
-                                  fix_unhidden := true; fix_watched := true; fix_outside := true |}.
+                                  fix_unhidden := true; fix_watched := true; fix_outside := true; fix_didopen := true |}.
 
 (* file sets: fmem / fadd / frem are in Model/Diag.v *)
 Definition fset_of (l : list file) : list file := fold_right fadd [] l.
@@ -244,8 +251,24 @@ Section Model.
     let '(d, ps) := push_all_again (fix12a fx) (fix_unhidden fx) (ds s) (all_errs p) in
     ({| pj := p; cache := cache s; ds := d |}, ps).
 
-  (* TextDocumentDidOpen *)
-  Definition did_open (dk : amap txt) (s : server) (f : file) (t : txt) : server * list publish :=
+  (* analyseBufferText (the body shared by TextDocumentDidChange and the repaired TextDocumentDidOpen):
+     HandleFileChangeAnalysis on the text of an open document, then publish or clear its live syntax errors *)
+  Definition analyse_buffer (s : server) (f : file) (t : txt) : server * list publish :=
+    let p1 := set_lru (pj s) (fadd f (p_lru (pj s))) in
+    let el := (syn A) t in
+    if is_nil el then
+      let '(d1, ps1) := clear_change (ds s) f in
+      ({| pj := p1; cache := aset (cache s) f t; ds := mark_clean d1 f |}, ps1 ++ clear_syntax d1 f)
+    else
+      let '(d1, ps1) := insert_change (ds s) f el in
+      ({| pj := p1; cache := aset (cache s) f t; ds := d1 |}, ps1).
+
+  (* ioutil.ReadFile(strFile) failed, or the file's text is not the text the notification carries *)
+  Definition open_differs (dk : amap txt) (f : file) (t : txt) : bool :=
+    match aget dk f with Some d => negb ((teqb A) d t) | None => true end.
+
+  (* TextDocumentDidOpen up to (not including) the comparison of the carried text with the file *)
+  Definition did_open_base (dk : amap txt) (s : server) (f : file) (t : txt) : server * list publish :=
     let p0 := set_lru (pj s) (frem f (p_lru (pj s))) in
     let s0 := {| pj := p0; cache := aset (cache s) f t; ds := unmark_clean (ds s) f |} in
     let '(s1, ps1) :=
@@ -255,19 +278,19 @@ Section Model.
     let '(d2, ps2) := clear_change (ds s1) f in
     ({| pj := pj s1; cache := cache s1; ds := d2 |}, ps1 ++ ps2).
 
+  (* TextDocumentDidOpen. [fix_didopen] = repair: from now on the carried text is the truth for the document; when it is
+     not the file's text it is analysed right away, exactly as the first didChange would *)
+  Definition did_open (dk : amap txt) (s : server) (f : file) (t : txt) : server * list publish :=
+    let '(s2, ps) := did_open_base dk s f t in
+    if fix_didopen fx && open_differs dk f t
+    then let '(s3, ps3) := analyse_buffer s2 f t in (s3, ps ++ ps3)
+    else (s2, ps).
+
   (* TextDocumentDidChange (full-text change) + HandleFileChangeAnalysis *)
   Definition did_change (s : server) (f : file) (t : txt) : server * list publish :=
     match aget (cache s) f with
     | None => (s, [])
-    | Some _ =>
-      let p1 := set_lru (pj s) (fadd f (p_lru (pj s))) in
-      let el := (syn A) t in
-      if is_nil el then
-        let '(d1, ps1) := clear_change (ds s) f in
-        ({| pj := p1; cache := aset (cache s) f t; ds := mark_clean d1 f |}, ps1 ++ clear_syntax d1 f)
-      else
-        let '(d1, ps1) := insert_change (ds s) f el in
-        ({| pj := p1; cache := aset (cache s) f t; ds := d1 |}, ps1)
+    | Some _ => analyse_buffer s f t
     end.
 
   (* TextDocumentDidSave *)
@@ -346,7 +369,10 @@ Section Model.
   Inductive action :=
   | AOpen (f : file) | AChange (f : file) (t : txt) | ASave (f : file) | AClose (f : file)
   | AWatched (l : list witem)
-  | ARaw (e : event).
+  | ARaw (e : event)
+  (* the editor opens f with a buffer that need not be the file's text (an unsaved buffer restored at start-up, "hot
+     exit"; a file changed behind the editor's back): when it differs the document has unsaved edits from the start *)
+  | AOpenWith (f : file) (t : txt).
 
   Definition witem_file (i : witem) : file := match i with WC f _ | WM f _ | WD f => f end.
   Definition witem_disk (i : witem) : event :=
@@ -381,6 +407,12 @@ Section Model.
       end
     | AWatched l => steps w (map witem_disk l ++ [EWatched (map witem_ev l)])
     | ARaw e => step w e
+    | AOpenWith f t =>
+      match aget (disk w) f, aget (ebuf w) f with
+      | Some d, None =>
+        steps (set_editor w (aset (ebuf w) f t) (if (teqb A) d t then frem f (dirty w) else fadd f (dirty w))) [EOpen f t]
+      | _, _ => (w, [])
+      end
     end.
 
   Definition init_world (dk : amap txt) : world * list publish :=
@@ -404,4 +436,4 @@ Arguments EDiskWrite {A} f t. Arguments EDiskRemove {A} f. Arguments EOpen {A} f
 Arguments ESave {A} f t. Arguments EClose {A} f. Arguments EWatched {A} l.
 Arguments WC {A} f t. Arguments WM {A} f t. Arguments WD {A} f.
 Arguments AOpen {A} f. Arguments AChange {A} f t. Arguments ASave {A} f. Arguments AClose {A} f.
-Arguments AWatched {A} l. Arguments ARaw {A} e.
+Arguments AWatched {A} l. Arguments ARaw {A} e. Arguments AOpenWith {A} f t.
